@@ -108,7 +108,6 @@ KIND_PARAMS = {
 }
 KINDS = sorted(KIND_PARAMS)
 DICT_VALUED = {"aroon", "ADX", "BBANDS", "donchian", "HL", "KC", "MACD", "STOCH", "Supertrend"}
-ATR_FAMILY = {"ATR", "KC", "Supertrend", "ADX"}
 
 # analysis functions wrapped by Amorph (keys of MOVEMENT_MAP | PATTERN_MAP)
 ANALYSIS_PARAMS = {
@@ -430,14 +429,43 @@ def names_collide(members, cfg, cross=False):
     return False
 
 
+_HELPERS = {}
+_PROBE = [(0, 10, 11, 9, 10, 5), (60, 10, 12, 10, 11, 7), (120, 11, 12, 10, 10, 3)]
+
+
+def helper_names(member):
+    """names of the internal helper series (sub / managed indicators, any depth) the member keeps on its candles,
+    read off a real instance after one calculate() - so the precondition follows the tree under test"""
+    key = repr((member["kind"], member.get("analysis"), sorted(member["params"].items()), member.get("tf"), member.get("suffix")))
+    if key not in _HELPERS:
+        names = set()
+        try:
+            obj = build_obj(member, tf=member.get("tf"), candles=cm.mk_candles(_PROBE))
+            try:
+                obj.calculate()
+            except Exception:
+                pass
+
+            def walk(ind):
+                for group in (ind.sub_indicators, ind.managed_indicators):
+                    for sub in group.values():
+                        if sub.name not in names:
+                            names.add(sub.name)
+                            walk(sub)
+
+            walk(obj)
+        except Exception:
+            pass
+        _HELPERS[key] = names
+    return _HELPERS[key]
+
+
 def helper_relation(owner, other, other_name):
-    """does `owner` keep an internal helper series under `other`'s top-level name (default naming of the pinned tree)?"""
-    if owner["kind"] == "BBANDS":
-        p = owner["params"].get("period", 5)
-        if other_name in (f"SMA_{p}", f"STDEV_{p}"):
-            return "BBANDS"
-    if owner["kind"] in ATR_FAMILY and other_name == "TR":
-        return "ATR"
+    """does `owner` keep an internal helper series under `other`'s top-level name?  (label of the composite family | None)"""
+    if other_name in helper_names(owner):
+        if other_name == "TR":
+            return "ATR"
+        return owner["kind"]
     return None
 
 
